@@ -680,7 +680,14 @@ func (ch *c13Chain) text() string {
 			if L.def != nil {
 				l.Add(yang.S("default", *L.def))
 			}
-			m.Add(yang.S("container", "c", l))
+			c := yang.S("container", "c", l)
+			if ch.kind == "string" && i > 0 {
+				// two more users of the same typedef, before and after the leaf, each with a pattern of its own
+				// that rejects nothing: what one reference to a typedef adds is its own affair
+				c.Kids = append([]*yang.Stmt{yang.S("leaf", "sib-before", yang.S("type", prev, yang.S("pattern", ".*")))}, c.Kids...)
+				c.Add(yang.S("leaf", "sib-after", yang.S("type", prev, yang.S("pattern", "(.*)|(never)"), yang.S("pattern", ".*"))))
+			}
+			m.Add(c)
 		} else {
 			td := yang.S("typedef", fmt.Sprintf("t%d", i), t)
 			if L.def != nil {
